@@ -53,6 +53,16 @@ func (s *Sim) endpointOfTransient(key [33]byte, before, after *projection) bool 
 	return false
 }
 
+// wasGone: the probe store saw the node absent at some commit of this step.
+func (s *Sim) wasGone(key [33]byte) bool {
+	if s.nodeGone == nil {
+		return false
+	}
+	s.storedMu.Lock()
+	defer s.storedMu.Unlock()
+	return s.nodeGone[key]
+}
+
 // fail raises a violation. If the graph holds (or held) a channel whose two
 // node ids are equal, the violation is reported under the code
 // "selfloop-channel" with the specific class as its signature: such a channel
@@ -69,7 +79,16 @@ func (s *Sim) fail(code, format string, args ...interface{}) {
 // difference and everything the node sent out since the last check.
 func (s *Sim) check(what string) {
 	r := s.r
-	defer func() { s.agedSince = false }()
+	defer func() {
+		s.agedSince = false
+		s.blockInBurst = false
+		s.w.chain.ClearAnswers()
+		if s.nodeGone != nil {
+			s.storedMu.Lock()
+			s.nodeGone = map[[33]byte]bool{}
+			s.storedMu.Unlock()
+		}
+	}()
 	old := s.proj
 	cur := s.w.readProjection()
 	for _, c := range cur.chans {
@@ -291,7 +310,14 @@ func (s *Sim) justifyChanAdd(c *pChan, what string) {
 	if !t.Exists {
 		s.fail("chan-no-funding", "%s: channel %s entered the graph from [%s], but the chain has no output at that position", what, id, mi.label)
 	}
-	if t.Spent {
+	if t.Spent && s.blockInBurst && s.w.chain.SaidUnspent(t.OutPoint) {
+		// The block that spends the output arrived while this announcement
+		// was being handled: the chain was asked before the block and said
+		// "unspent" (and the chain view's filter did not name the output
+		// yet, so the block does not prune the channel either). Judged by the
+		// answer the node got, not by the chain at the end of the step.
+		r.Count("probe_channel_validated_before_the_block_that_spends_its_funding")
+	} else if t.Spent {
 		s.fail("chan-funding-spent", "%s: channel %s entered the graph from [%s], but its funding output %v is already spent", what, id, mi.label, t.OutPoint)
 	}
 	if !bytes.Equal(t.PkScript, p2wsh2of2(m.btc1, m.btc2)) {
@@ -376,7 +402,11 @@ func (s *Sim) justifyNode(n, old *pNode, before, after *projection, what string)
 	if !m.sigOK() {
 		s.fail("node-bad-signature", "%s: node %s taken from announcement [%s] not signed by that node", what, id, mi.label)
 	}
-	if old != nil && old.wire != nil && !(m.ts > old.ts) {
+	if old != nil && old.wire != nil && !(m.ts > old.ts) && s.wasGone(n.key) {
+		// pruned with its last channel and announced again within one step
+		// (a block inside a burst): there was no stored one to be newer than
+		r.Count("probe_node_pruned_and_reannounced_within_one_step")
+	} else if old != nil && old.wire != nil && !(m.ts > old.ts) {
 		s.fail("node-not-newer", "%s: node %s replaced by announcement [%s] with timestamp %d, stored one had %d", what, id, mi.label, m.ts, old.ts)
 	}
 	if !before.hasEndpoint(n.key) && !after.hasEndpoint(n.key) && !s.endpointOfTransient(n.key, before, after) {
@@ -496,7 +526,14 @@ func (s *Sim) checkFunding(c *pChan, m *wireCA, label, what string) {
 	if !t.Exists {
 		s.fail("chan-no-funding", "%s: channel %s entered the graph from [%s], but the chain has no output at that position", what, id, label)
 	}
-	if t.Spent {
+	if t.Spent && s.blockInBurst && s.w.chain.SaidUnspent(t.OutPoint) {
+		// The block that spends the output arrived while this announcement
+		// was being handled: the chain was asked before the block and said
+		// "unspent" (and the chain view's filter did not name the output
+		// yet, so the block does not prune the channel either). Judged by the
+		// answer the node got, not by the chain at the end of the step.
+		s.r.Count("probe_channel_validated_before_the_block_that_spends_its_funding")
+	} else if t.Spent {
 		s.fail("chan-funding-spent", "%s: channel %s entered the graph from [%s], but its funding output %v is already spent", what, id, label, t.OutPoint)
 	}
 	if !bytes.Equal(t.PkScript, p2wsh2of2(m.btc1, m.btc2)) {
